@@ -61,5 +61,46 @@ fn main() {
             lopdf::verif_hooks::force_completion_order(None);
         }
     }
+    // shared-buffer phase: files of (nearly) equal length are padded with line ends to one common length and
+    // loaded alternately from ONE buffer (same address, same length): the result must not depend on what was
+    // loaded from that address before (state keyed on the buffer instead of on its content)
+    lopdf::verif_hooks::force_completion_order(None);
+    let mut padded: Vec<(usize, Vec<u8>)> = files.iter().enumerate().map(|(i, c)| (i, json_to_bytes(&c["bytes"]))).collect();
+    padded.sort_by_key(|(_, b)| b.len());
+    let mut g = 0;
+    while g < padded.len() {
+        let l0 = padded[g].1.len();
+        let mut h = g;
+        while h < padded.len() && padded[h].1.len() <= l0 + 300 && h - g < 6 {
+            h += 1;
+        }
+        if h - g >= 2 {
+            let len = padded[h - 1].1.len();
+            let group: Vec<(usize, Vec<u8>)> = padded[g..h].iter().map(|(i, b)| {
+                let mut v = b.clone();
+                v.resize(len, b'\n');
+                (*i, v)
+            }).collect();
+            for (i, v) in &group {
+                let (res, hash, obs) = load_digest(v);
+                let mut cs = obs.clone();
+                cs.sort();
+                out.put(&json!({"file": 100000 + i, "kind": "fresh", "res": res, "hash": hash, "observed": obs, "containers": cs}));
+            }
+            let mut buf = vec![0u8; len];
+            // few worker threads, several rounds: the same thread meets the same address with other content
+            let small = &pools[if g % 2 == 0 { 0 } else { 1 }].1;
+            for round in 0..6 {
+                for (i, v) in &group {
+                    buf.copy_from_slice(v);
+                    let (res, hash, obs) = small.install(|| load_digest(&buf));
+                    let mut cs = obs.clone();
+                    cs.sort();
+                    out.put(&json!({"file": 100000 + i, "kind": "shared", "rep": round, "res": res, "hash": hash, "observed": obs, "containers": cs}));
+                }
+            }
+        }
+        g = h.max(g + 1);
+    }
     out.finish();
 }
